@@ -98,6 +98,10 @@ CHECKS = {
          "2-4 sessions spread over three branches of one production SQL engine, two AUTO_INCREMENT tables; seeded INSERT forms (NULL / 0 / omitted id, multi-row, mixed explicit+generated, explicit above and below the sequence), START TRANSACTION / COMMIT / ROLLBACK, dolt_checkout to another branch, dolt_branch, DELETE of the newest rows, clean restarts (which end the server lifetime and reset the oracle); every generated id is read back through its row's unique tag and must be distinct from and larger than every id generated before by any session on any branch, and larger than every explicit value accepted before on any branch.",
          "Statement-level interleaving only (S0): the per-table mutex inside SequenceTracker.Next is exercised sequentially; races inside one INSERT are not explored. TRUNCATE / ALTER ... AUTO_INCREMENT / branch deletion are not generated.",
          "deterministic simulation: seeded statement-level interleaving across sessions and branches, history oracle over generated values", "DESIGN.md §6.3 C28", "dsim-sql"),
+ "C33": ("exploration",
+         "Two branches edited by their own sessions behind the production SQL engine: seeded row DML, ADD/DROP COLUMN, RENAME TABLE, DROP/CREATE TABLE, dolt_commit (recorded in the reference model with the table's name, schema and rows), tags and branches created at randomly chosen old commits, uncommitted changes, dolt_gc and clean restarts; every recorded commit is later read AS OF its hash / a tag / a branch, through the revision database name, and through dolt_history_<table> filtered to the commit, and must return exactly the recorded rows, or be refused where the table was absent.",
+         "History-table reads are limited to commits of the reader's branch in which the table had its present name. AS OF timestamps are not generated.",
+         "deterministic simulation: seeded histories with GC / restart events, recorded-state oracle over three historical read paths", "DESIGN.md §6.3 C33", "dsim-sql"),
  "C27": ("exploration",
          "2-3 sessions on main plus one on branch b1 behind the production SQL engine, one keyless table with a secondary index; seeded multi-row INSERT of duplicates, DELETE/UPDATE ... LIMIT n, COMMIT/ROLLBACK, edits on b1, CALL dolt_merge('b1'), clean restarts; a multiset reference model per session and branch predicts every GROUP BY over all columns, COUNT(*) and index lookup; transaction commits and branch merges must combine multiplicity changes row by row and must refuse/report when both sides changed the multiplicity of one row differently.",
          "Refusals for convergent changes (both sides made the same change) are dolt being conservative and are counted, not reported. dolt_merge runs under autocommit (conflicts => rolled back + error); the dolt_conflicts table contents are C43 (pure).",
